@@ -11,6 +11,9 @@ os.environ.setdefault("PYTHONHASHSEED", "0")
 os.environ.setdefault("CIJ_VERIF_TRACE", "1")
 os.environ.setdefault("NUMBA_CACHE_DIR", "/tmp/cijverif.numba")
 os.environ.setdefault("MPLBACKEND", "Agg")
+os.environ.setdefault("PYTHONWARNINGS", "ignore")
+import warnings
+warnings.filterwarnings("ignore")
 
 from cv.core import run_check  # noqa: E402
 
